@@ -294,8 +294,6 @@ class SQLParser(Parser):
     @_('select OFFSET constant')
     def select(self, p):
         select = p.select
-        if select.offset is not None:
-            raise ParsingException(f'OFFSET already specified for this query')
         ensure_select_keyword_order(select, 'OFFSET')
         if not isinstance(p.constant.value, int):
             raise ParsingException(f'OFFSET must be an integer value, got: {p.constant.value}')
